@@ -289,6 +289,13 @@ where
         Sqx: Data<Elem = Sd::Elem>,
         Sqy: Data<Elem = Sd::Elem>,
     {
+        // the strategies check the shape of each sub-view, but they are never called for an empty `xs`
+        assert!(
+            buffer.shape()[1..] == self.data.shape()[2..],
+            "buffer has the wrong shape, expected trailing dimensions: {:?}, got: {:?}",
+            &self.data.shape()[2..],
+            &buffer.shape()[1..]
+        );
         Zip::from(xs)
             .and(ys)
             .and(buffer.axis_iter_mut(Axis(0)))
